@@ -65,11 +65,17 @@ def uint (pj : PJ) (i : Iter) : Res Nat :=
 
 -- In-place edits ---------------------------------------------------------------------------------
 
-/-- Writes `tape[off-1]` and `tape[off]`. -/
+/-- `i.tape.Tape[k] = v`: Go checks the index against the length of the iterator's view, `len(i.tape.Tape)` = `lim`
+    (`lim ≤ tape.size` for every view the API makes; the array check of `wr` is kept in addition).  An index in
+    `[lim, tape.size)` panics, as in Go. -/
+@[inline] def wrV (lim : Nat) (tape : Array UInt64) (k : Nat) (v : UInt64) : Res (Array UInt64) :=
+  if k < lim then wr tape k v else .panic
+
+/-- Writes `tape[off-1]` and `tape[off]` (both checked against the view: panics iff `off = 0` or `off ≥ lim`). -/
 def set2 (pj : PJ) (i : Iter) (w0 w1 : UInt64) : Res PJ :=
   if i.off = 0 then .panic else do
-    let t1 ← wr pj.tape (i.off - 1) w0
-    let t2 ← wr t1 i.off w1
+    let t1 ← wrV i.lim pj.tape (i.off - 1) w0
+    let t2 ← wrV i.lim t1 i.off w1
     .ok { pj with tape := t2 }
 
 def setFloat (pj : PJ) (i : Iter) (bits : UInt64) : Res (PJ × Iter) :=
@@ -101,11 +107,12 @@ def setBool (pj : PJ) (i : Iter) (v : Bool) : Res (PJ × Iter) :=
   if inCase (caseOf swSetBool 0) i.t then
     if i.off = 0 then .panic else do
       let t := if v then tagBoolTrue else tagBoolFalse
-      let tp ← wr pj.tape (i.off - 1) (mkWord t 0)
+      let tp ← wrV i.lim pj.tape (i.off - 1) (mkWord t 0)
       .ok ({ pj with tape := tp }, { i with t := t, cur := 0 })
   else .error .generic
 
-/-- The NOP fill loop `for j := lo; j < hi; j++ { tape[j] = Nop | (hi - j) }`. -/
+/-- The NOP fill loop `for j := lo; j < hi; j++ { tape[j] = Nop | (hi - j) }` on the whole array
+    (`Object.DeleteElems`, via `fillNops`). -/
 def nopFill (tape : Array UInt64) (lo hi : Nat) : Res (Array UInt64) :=
   if h : lo < hi then do
     let t ← wr tape lo (mkWord tagNop (UInt64.ofNat (hi - lo)))
@@ -113,18 +120,27 @@ def nopFill (tape : Array UInt64) (lo hi : Nat) : Res (Array UInt64) :=
   else .ok tape
 termination_by hi - lo
 
+/-- The same loop through an iterator's view of length `lim` (`SetNull` on a container):
+    `for j := lo; j < hi; j++ { i.tape.Tape[j] = Nop | (hi - j) }` panics at the first `j ≥ lim`. -/
+def nopFillV (lim : Nat) (tape : Array UInt64) (lo hi : Nat) : Res (Array UInt64) :=
+  if h : lo < hi then do
+    let t ← wrV lim tape lo (mkWord tagNop (UInt64.ofNat (hi - lo)))
+    nopFillV lim t (lo + 1) hi
+  else .ok tape
+termination_by hi - lo
+
 def setNull (pj : PJ) (i : Iter) : Res (PJ × Iter) :=
   if inCase (caseOf swSetNull 0) i.t then
     if i.off = 0 then .panic else do
-      let tp ← wr pj.tape (i.off - 1) (mkWord tagNull 0)
+      let tp ← wrV i.lim pj.tape (i.off - 1) (mkWord tagNull 0)
       .ok ({ pj with tape := tp }, { i with t := tagNull, cur := 0 })
   else if inCase (caseOf swSetNull 1) i.t then do
     let pj' ← set2 pj i (mkWord tagNull 0) (mkWord tagNop 1)
     .ok (pj', { i with t := tagNull, cur := 0 })
   else if inCase (caseOf swSetNull 2) i.t then
     if i.off = 0 then .panic else do
-      let tp ← wr pj.tape (i.off - 1) (mkWord tagNull 0)
-      let tp ← nopFill tp i.off i.cur.toNat
+      let tp ← wrV i.lim pj.tape (i.off - 1) (mkWord tagNull 0)
+      let tp ← nopFillV i.lim tp i.off i.cur.toNat
       .ok ({ pj with tape := tp }, { i with addNext := (i.cur.toNat : Int) - i.off, t := tagNull, cur := 0 })
   else .error .generic
 
